@@ -12,7 +12,7 @@ import PpciVerif.Spec.IRArith
   v <cfg> | <shape> | <skeleton>   → ok <acc|rej> <same|model:<tokens>|err:<Exc>> [| same|inconclusive|differ bits=… cfg=… wasm=…]
         validator verdict on the real skeleton + does Model.compile(shape) reproduce it
   s <shape>                        → ok <tokens…> | err <Exc>        (Model.compile alone)
-  d <cfg> | <skeleton> | L K F R   → ok same | ok inconclusive | ok differ bits=… cfg=… wasm=…
+  d <cfg> | <skeleton> | L K F R maxO → ok same | ok budget | ok differ bits=… cfg=… wasm=…   (L≤12, K≤64, F≤1500, R≤400, at most maxO oracles)
         search all 2^L decision oracles (bit k = k-th conditional jump executed) (then R pseudo-random 48-decision oracles) for one on which the traces differ
   t <cfg> | <skeleton> | <bits> K F → ok cfg=<blocks>/<done> wasm=<kind>:<blocks>
   lay <base> <amount>:<len> …      → ok <addr> … end=<addr>           (Model.DataSeg.layout)
@@ -213,11 +213,15 @@ def lcgBits (seed len : Nat) : List Bool :=
 def replayable (g : Cfg) (w : W) (o : Oracle) (K F : Nat) : Bool :=
   (cfgTrace g o K).done && (match execK g o K F w St.init with | .ret _ => true | .fall _ => true | _ => false)
 
-/-- an oracle on which the sides differ (confirmed with the real `exec`), preferring a
-    replayable one, and whether some oracle was inconclusive: all `2^L` decision
-    prefixes, then `R` pseudo-random oracles of 48 decisions -/
-def search (g : Cfg) (w : W) (L K F R : Nat) : Option (List Bool) × Bool :=
-  let r := (allBits L ++ (List.range R).map (fun i => lcgBits i 48)).foldl
+/-- an oracle on which the sides differ, preferring a replayable one; second component:
+    some oracle was inconclusive or the list of oracles was cut by the budget `maxO`.
+    Oracles: all `2^L` decision prefixes, then `R` pseudo-random 48-decision oracles, at most
+    `maxO` in total.  The runs use `execK` (= `Model.Shape.exec` stopped after `K` blocks, so a
+    run costs O((K + F) * size) and never depends on how long the real run would go on). -/
+def search (g : Cfg) (w : W) (L K F R maxO : Nat) : Option (List Bool) × Bool :=
+  let all := allBits L ++ (List.range R).map (fun i => lcgBits i 48)
+  let cut := all.length > maxO
+  let r := (all.take maxO).foldl
     (fun (acc : Option (List Bool) × Option (List Bool) × Bool) bits =>
     match acc.2.1 with
     | some _ => acc
@@ -226,11 +230,9 @@ def search (g : Cfg) (w : W) (L K F R : Nat) : Option (List Bool) × Bool :=
       match judge (execK g o K F w St.init) g o K with
       | 0 => acc
       | 1 =>
-        if judge (exec g o F w St.init) g o K == 1 then
-          let first := match acc.1 with | some b => some b | none => some bits
-          if replayable g w o K F then (first, some bits, acc.2.2) else (first, none, acc.2.2)
-        else (acc.1, none, true)
-      | _ => (acc.1, none, true)) (none, none, false)
+        let first := match acc.1 with | some b => some b | none => some bits
+        if replayable g w o K F then (first, some bits, acc.2.2) else (first, none, acc.2.2)
+      | _ => (acc.1, none, true)) (none, none, cut)
   match r.2.1 with
   | some b => (some b, r.2.2)
   | none => (r.1, r.2.2)
@@ -256,9 +258,9 @@ def step (line : String) : String :=
         -- a rejection is followed at once by a first search for a differing oracle (2^6 decision prefixes)
         let srch := if check g w then "" else
           let F := 150 + 3 * sk.length
-          match search g w 6 14 F 0 with
+          match search g w 6 14 (min F 1500) 0 64 with
           | (none, false) => " | same"
-          | (none, true) => " | inconclusive"
+          | (none, true) => " | budget"
           | (some bits, _) =>
             let o := oracleOf g bits
             s!" | differ bits={showBits bits} cfg={showTrace (cfgTrace g o 14)} wasm={showOut (execK g o 14 F w St.init)}"
@@ -274,16 +276,16 @@ def step (line : String) : String :=
     | none => "bad-op"
   | "d" :: rest =>
     match splitBar rest with
-    | [c, sk, [l, k, f, r]] =>
-      match parseCfg c, parseW sk, l.toNat?, k.toNat?, f.toNat?, r.toNat? with
-      | some g, some w, some L, some K, some F, some R =>
-        match search g w L K F R with
+    | [c, sk, [l, k, f, r, mo]] =>
+      match parseCfg c, parseW sk, l.toNat?, k.toNat?, f.toNat?, r.toNat?, mo.toNat? with
+      | some g, some w, some L, some K, some F, some R, some maxO =>
+        match search g w (min L 12) (min K 64) (min F 1500) (min R 400) maxO with
         | (none, false) => "ok same"
-        | (none, true) => "ok inconclusive"
+        | (none, true) => "ok budget"
         | (some bits, _) =>
           let o := oracleOf g bits
           s!"ok differ bits={showBits bits} cfg={showTrace (cfgTrace g o K)} wasm={showOut (execK g o K F w St.init)}"
-      | _, _, _, _, _, _ => "bad-op"
+      | _, _, _, _, _, _, _ => "bad-op"
     | _ => "bad-op"
   | "t" :: rest =>
     match splitBar rest with
@@ -291,7 +293,7 @@ def step (line : String) : String :=
       match parseCfg c, parseW sk, parseBits b, k.toNat?, f.toNat? with
       | some g, some w, some bits, some K, some F =>
         let o := oracleOf g bits
-        s!"ok cfg={showTrace (cfgTrace g o K)} wasm={showOut (exec g o F w St.init)}"
+        s!"ok cfg={showTrace (cfgTrace g o K)} wasm={showOut (execK g o (min K 256) (min F 1500) w St.init)}"
       | _, _, _, _, _ => "bad-op"
     | _ => "bad-op"
   | ["ar", t, o, a, b] =>
